@@ -137,6 +137,7 @@ static void c09_pixels(const unsigned char *data, size_t n, int mode, int kind, 
  * position of the header (one cut per run), byte by byte, and in seeded chunks.  Saved markers, ICC profile and the JFIF fields must
  * not depend on where the input was cut. */
 typedef struct { unsigned long long mark, icc; unsigned iccn; int jfif, du, xd, yd, adobe, ok, err, warn; } c16_hdr;
+static unsigned c16_limit = 0xFFFF;   /* length limit given to jpeg_save_markers for COM and APPn */
 static void c16_read(const unsigned char *data, size_t n, int mode, int kind, unsigned long long seed, size_t split, c16_hdr *r)
 {
   struct jpeg_decompress_struct d; my_err_t e; c09_src s; JOCTET *icc = NULL; unsigned int iccn = 0; int m;
@@ -145,8 +146,8 @@ static void c16_read(const unsigned char *data, size_t n, int mode, int kind, un
   jpeg_create_decompress(&d);
   if (setjmp(e.jb)) { r->err = e.code; jpeg_destroy_decompress(&d); free(s.buf); return; }
   if (mode == 0) jpeg_mem_src(&d, data, n); else c09_setup(&d, &s, data, n, kind, seed, split);
-  jpeg_save_markers(&d, JPEG_COM, 0xFFFF);
-  for (m = 0; m < 16; m++) jpeg_save_markers(&d, JPEG_APP0 + m, 0xFFFF);
+  jpeg_save_markers(&d, JPEG_COM, c16_limit);
+  for (m = 0; m < 16; m++) jpeg_save_markers(&d, JPEG_APP0 + m, m == 2 ? 0xFFFF : c16_limit);
   while (jpeg_read_header(&d, TRUE) == JPEG_SUSPENDED) { if (mode != 1 || !c09_feed(&s)) { r->err = -9; jpeg_destroy_decompress(&d); free(s.buf); return; } }
   r->mark = c09_markers(&d);
   if (jpeg_read_icc_profile(&d, &icc, &iccn)) { unsigned i; unsigned long long h = 14695981039346656037ULL; for (i = 0; i < iccn; i++) { h ^= icc[i]; h *= 1099511628211ULL; } r->icc = h; r->iccn = iccn; free(icc); }
@@ -183,8 +184,10 @@ static int c16_msusp(toks_t *t)
   jpeg_finish_compress(&c);
   jpeg_destroy_compress(&c);
   for (p = 2; p + 3 < outsize; ) { if (out[p] == 0xFF && out[p + 1] == 0xDA) { hdr = p; break; } p += 2 + (((size_t)out[p + 2] << 8) | out[p + 3]); }
+  /* the save limit: everything, or a seeded small limit so that saved markers are truncated and their tails skipped */
+  { static const unsigned lims[6] = { 0xFFFF, 0xFFFF, 16, 1, 100, 3 }; c16_limit = lims[(seed >> 20) % 6ULL]; }
   c16_read(out, outsize, 0, 0, 0, 0, &ref);
-  printf("R hdr %zu markers %llu icc %u jfif %d %d %d %d warn %d\n", hdr, ref.mark, ref.iccn, ref.jfif, ref.du, ref.xd, ref.yd, ref.warn);
+  printf("R hdr %zu limit %u markers %llu icc %u jfif %d %d %d %d warn %d\n", hdr, c16_limit, ref.mark, ref.iccn, ref.jfif, ref.du, ref.xd, ref.yd, ref.warn);
   if (!ref.ok) { printf("O fail msusp: own header not readable from memory (error %d)\n", ref.err); free(out); return 1; }
   /* one cut at every byte position of the header (at most 6000 of them, then every 7th) */
   for (p = 1; p < hdr + 4 && !why[0]; p += (p < 6000 ? 1 : 7)) {
@@ -197,6 +200,7 @@ static int c16_msusp(toks_t *t)
   }
   if (why[0]) printf("O fail msusp: header read through a suspending source differs from the read from memory (markers %llu icc %u jfif %d density %d/%dx%d): %s\n", ref.mark, ref.iccn, ref.jfif, ref.du, ref.xd, ref.yd, why);
   else printf("O ok\n");
+  c16_limit = 0xFFFF;
   free(out);
   return 1;
 }
